@@ -230,6 +230,7 @@ type c11Amp struct {
 	others    string // the remaining annotations, sorted: hexname=i<int> / hexname=s<hex> joined by ";" ("-" = none)
 	// oracle only
 	lo, hi int    // first / last+1 position of the template the record depends on (sites + window), linear templates
+	si, sj int    // start of the direct site, end of the complemented site
 	over   bool   // circular: the requested window (sites + flanks) is longer than the circle
 	alt    string // … and what Subsequence returns then: the request modulo the length
 }
@@ -352,7 +353,7 @@ func c11Expected(o c11Opt, F, R []c11Tok, t []byte) (exp []c11Amp) {
 				dm := string(c11Win(t, i, dl))
 				cmb, _ := c11RcAny(c11Win(t, j, cl))
 				cm := string(cmb)
-				a := c11Amp{dir: dir, from: ((from % L) + L) % L, over: over, lo: min(i, from), hi: max(j+cl, from+n)}
+				a := c11Amp{dir: dir, from: ((from % L) + L) % L, over: over, lo: min(i, from), hi: max(j+cl, from+n), si: i, sj: j + cl}
 				alt := seg
 				if over {
 					alt = c11Win(t, from, (n-1)%L+1)
@@ -507,22 +508,34 @@ func c11CheckAnnot(s *obiseq.BioSequence, o c11Opt, tag int) {
 // runs the real PCRSlice on a batch; returns per-template amplicons
 func c11Run(o c11Opt, tpls [][]byte) [][]c11Amp {
 	batch := make(obiseq.BioSequenceSlice, len(tpls))
+	tags := make([]int, len(tpls))
 	for i, t := range tpls {
 		batch[i] = obiseq.NewBioSequence("t"+strconv.Itoa(i), t, "")
 		c11SetTplAnnot(batch[i], i)
+		tags[i] = i
+	}
+	return c11RunSeqs(o, batch, tags)
+}
+
+// … on sequences that exist already (the pieces cut by IFragments, with whatever IFragments left on them); tags[k] = the
+// annotation convention the amplicons of batch[k] must follow
+func c11RunSeqs(o c11Opt, batch obiseq.BioSequenceSlice, tags []int) [][]c11Amp {
+	index := map[string]int{}
+	for i, s := range batch {
+		index[s.Id()] = i
 	}
 	res := obiapat.PCRSlice(batch, o.options()...)
-	out := make([][]c11Amp, len(tpls))
+	out := make([][]c11Amp, len(batch))
 	for _, s := range res {
 		id := s.Id()
-		// t<k>_sub[a..b]
-		p := strings.Index(id, "_sub[")
-		k, _ := strconv.Atoi(id[1:p])
+		// <template id>_sub[a..b]
+		p := strings.LastIndex(id, "_sub[")
+		k := index[id[:p]]
 		coord := id[p+5 : len(id)-1]
 		dots := strings.Index(coord, "..")
 		from1, _ := strconv.Atoi(coord[:dots])
 		a := c11Amp{from: from1 - 1, idto: coord[dots+2:], amp: string(s.Sequence())}
-		c11CheckAnnot(s, o, k)
+		c11CheckAnnot(s, o, tags[k])
 		c11ReadAnnot(s, &a)
 		out[k] = append(out[k], a)
 	}
@@ -781,6 +794,32 @@ func (c11) Exec(c string) (string, []Fail) {
 						fail("pcr.spurious."+class+c11DirOf(spurious), "template %d: reported but not defined by the primers: %s", i, c11Cut(spurious))
 					}
 				}
+				// obiapat.PCRSim (the single-sequence entry point: its own ApatSequence, freed afterwards) = PCRSlice on a batch of one
+				if len(tpls) == 1 && len(c)%3 == 0 {
+					stat("pcrsim-checked")
+					var sim []c11Amp
+					r0 := guardT(20*time.Second, func() string {
+						defer dbg()
+						sq := obiseq.NewBioSequence("t0", tpls[0], "")
+						c11SetTplAnnot(sq, 0)
+						for _, s := range obiapat.PCRSim(sq, o.options()...) {
+							id := s.Id()
+							p := strings.LastIndex(id, "_sub[")
+							coord := id[p+5 : len(id)-1]
+							dots := strings.Index(coord, "..")
+							from1, _ := strconv.Atoi(coord[:dots])
+							a := c11Amp{from: from1 - 1, idto: coord[dots+2:], amp: string(s.Sequence())}
+							c11ReadAnnot(s, &a)
+							sim = append(sim, a)
+						}
+						return "ok"
+					})
+					if r0 != "ok" {
+						fail("pcrsim."+r0+"."+class, "PCRSim: %s", r0)
+					} else if a, b := c11Show([][]c11Amp{sim}), c11Show([][]c11Amp{per[0]}); a != b {
+						fail("pcrsim."+class, "PCRSim returns %.200s, PCRSlice %.200s", a, b)
+					}
+				}
 				// batch composition: each template alone gives the same amplicons
 				if len(tpls) > 1 {
 					for i, t := range tpls {
@@ -927,9 +966,12 @@ func (c11) Exec(c string) (string, []Fail) {
 		var per [][]c11Amp
 		res := guardT(30*time.Second, func() string {
 			defer dbg()
-			src := obiiter.IBatchOver("x", obiseq.BioSequenceSlice{obiseq.NewBioSequence("x", t, "")}, 10)
+			tpl := obiseq.NewBioSequence("x", t, "")
+			c11SetTplAnnot(tpl, 1)
+			src := obiiter.IBatchOver("x", obiseq.BioSequenceSlice{tpl}, 10)
 			it := src.Pipe(obiiter.IFragments(minsize, length, overlap, 100, 2))
-			var tpls [][]byte
+			var pieces obiseq.BioSequenceSlice
+			var tags []int
 			for it.Next() {
 				for _, s := range it.Get().Slice() {
 					id := s.Id()
@@ -942,15 +984,21 @@ func (c11) Exec(c string) (string, []Fail) {
 						frags = append(frags, "whole")
 						fragStart = append(fragStart, 0)
 					}
-					tpls = append(tpls, append([]byte{}, s.Sequence()...))
+					// the pieces as IFragments delivers them (with the marks of their inner ends), as CLIPCR hands them on
+					pieces = append(pieces, s)
+					tags = append(tags, 1)
 				}
 			}
-			per = c11Run(o, tpls)
+			c11AnnotBad = nil
+			per = c11RunSeqs(o, pieces, tags)
 			return strings.Join(frags, ",") + " " + c11Show(per)
 		})
 		if res == "fatal" || res == "panic" || res == "hang" {
 			fail("frag."+res, "fragmented PCR ends in %s", res)
 			return res, fails
+		}
+		if len(c11AnnotBad) > 0 {
+			fail("frag.annot", "annotations of the amplicons: %s", strings.Join(c11AnnotBad, " ; "))
 		}
 		// oracle: the amplicons of the whole template are exactly the amplicons found on the fragments (as a set, in
 		// the coordinates of the whole template)
@@ -964,6 +1012,22 @@ func (c11) Exec(c string) (string, []Fail) {
 			}
 		}
 		stat(fmt.Sprintf("frag-sites:%d", min(len(exp), 4)))
+		if o.ext > -1 && !o.full && len(per) > 1 {
+			stat("frag:clipping-mode")
+			// pairs of sites lying inside a piece with a flank reaching beyond an inner end of that piece: what the patched
+			// _Pcr skips (statistics)
+			for k, st := range fragStart {
+				en := len(low)
+				if frags[k] != "whole" {
+					en, _ = strconv.Atoi(frags[k][strings.Index(frags[k], "..")+2:])
+				}
+				for _, x := range exp {
+					if st <= x.si && x.sj <= en && ((st > 0 && x.si-o.ext < st) || (en < len(low) && x.sj+o.ext > en)) {
+						stat("frag:pair-skipped-at-inner-end")
+					}
+				}
+			}
+		}
 		m, s := c11Diff(c11Uniq(c11Keys(exp, true, false)), c11Uniq(c11Keys(got, true, false)))
 		if len(m) > 0 {
 			fail("frag.missing", "amplicons of the whole template not found on any fragment: %s", c11Cut(m))
@@ -974,6 +1038,32 @@ func (c11) Exec(c string) (string, []Fail) {
 				sig = "frag.clipped-flank"
 			}
 			fail(sig, "found on a fragment but not an amplicon of the whole template: %s", c11Cut(s))
+		}
+		// each amplicon is reported once per piece that contains its two sites and its window
+		if len(m)+len(s) == 0 {
+			cnt := map[string]int{}
+			for _, k := range c11Keys(got, true, false) {
+				cnt[k]++
+			}
+			for _, x := range exp {
+				want := 0
+				for k, st := range fragStart {
+					en := len(low)
+					if frags[k] != "whole" {
+						en, _ = strconv.Atoi(frags[k][strings.Index(frags[k], "..")+2:])
+					}
+					if st <= x.lo && x.hi <= en {
+						want++
+					}
+				}
+				if want > 1 {
+					stat("frag-in-overlap")
+				}
+				if cnt[x.key(true)] != want {
+					fail("frag.count", "amplicon %s lies inside %d pieces but is reported %d times", x.key(true), want, cnt[x.key(true)])
+					break
+				}
+			}
 		}
 		return res, fails
 
@@ -1140,9 +1230,10 @@ func (c11) Exec(c string) (string, []Fail) {
 				}
 				fail(sig, "reported on a fragment but not an amplicon of the whole template: %s", c11Cut(s))
 			}
-			// duplicates are exactly the amplicons lying inside an overlap (pcr_fragment_duplicates): each amplicon is
-			// reported once per piece that contains its two sites and its window
-			if o.ext < 0 || o.full {
+			// duplicates are exactly the amplicons lying inside an overlap (pcr_fragment_duplicates, pcr_piece_marked): each
+			// amplicon is reported once per piece that contains its two sites and its window — in every mode since the pieces
+			// know which of their ends are ends of the template
+			{
 				cnt := map[string]int{}
 				for _, k := range gk {
 					cnt[k]++
@@ -1867,6 +1958,16 @@ func (c11) Gen(rng *rand.Rand, tier string, emit func(string)) {
 		}
 		emit(c11FragLine(rng, fw, rv, rng.Intn(2), 0, mx, ext, rng.Intn(2) == 0, 2*length, length, overlap, -1))
 	}
+	// flanks against the ends of the pieces (patch C11-fragment-inner-ends): products planted within `ext` symbols of the start
+	// of a piece / of the end of a piece / of the two ends of the template, flanks that may be clipped or must be complete
+	nfc := 14
+	if tier == "thorough" {
+		nfc = 40
+	}
+	for k := 0; k < nfc; k++ {
+		fl, rl := 4+rng.Intn(5), 4+rng.Intn(5)
+		emit(c11FragClipLine(rng, c11RandPrimer(rng, fl, 0), c11RandPrimer(rng, rl, 0), rng.Intn(2), 4+rng.Intn(12), 1+rng.Intn(6), rng.Intn(4) == 0))
+	}
 	nc := 3
 	if tier == "thorough" {
 		nc = 6
@@ -2012,4 +2113,47 @@ func c11FragLine(rng *rand.Rand, fw, rv string, e, mn, mx, ext int, full bool, m
 		b = 1
 	}
 	return fmt.Sprintf("frag %s %s %d %d %d %d %d %d %d %d %s", hx([]byte(fw)), hx([]byte(rv)), e, mn, mx, ext, b, minsize, length, overlap, hx(t))
+}
+
+// pieces of generic IFragments parameters whose overlap covers every product with its flanks; products planted so that a
+// flank reaches beyond the start / the end of a piece, and at the two ends of the template (where clipping is right)
+func c11FragClipLine(rng *rand.Rand, fw, rv string, e, mx, ext int, full bool) string {
+	F, _ := c11Primer(fw)
+	R, _ := c11Primer(rv)
+	rcR, rcF := c11RcSets(R), c11RcSets(F)
+	fl, rl := len(F), len(R)
+	overlap := mx + fl + rl + 2*ext
+	length := 3*overlap + rng.Intn(30)
+	step := length - overlap
+	minsize := 2 * length
+	L := minsize + 1 + 3*step + rng.Intn(step)
+	t := c11RandSeq(rng, L, "acgt")
+	plant := func(i, gap int, rev bool) {
+		D, C := F, rcR
+		if rev {
+			D, C = R, rcF
+		}
+		if i < 0 || i+len(D)+gap+len(C) > L {
+			return
+		}
+		c11Plant(t, i, c11Instance(rng, D, 0), false)
+		c11Plant(t, i+len(D)+gap, c11Instance(rng, C, 0), false)
+	}
+	for k := 1; k <= 3; k++ {
+		gap := 1 + rng.Intn(mx)
+		rev := rng.Intn(3) == 0
+		if rng.Intn(2) == 0 { // the left flank reaches before the start of piece k
+			plant(k*step+rng.Intn(ext+1), gap, rev)
+		} else { // the right flank reaches beyond the end of piece k-1
+			end := (k-1)*step + length - rng.Intn(ext+1)
+			plant(end-rl-gap-fl, gap, rev)
+		}
+	}
+	plant(rng.Intn(ext+1), 1+rng.Intn(mx), false)         // left flank clipped by the start of the template
+	plant(L-rng.Intn(ext+1)-fl-rl-mx, mx, rng.Intn(2) == 0) // right flank clipped by its end
+	b := 0
+	if full {
+		b = 1
+	}
+	return fmt.Sprintf("frag %s %s %d %d %d %d %d %d %d %d %s", hx([]byte(fw)), hx([]byte(rv)), e, 0, mx, ext, b, minsize, length, overlap, hx(t))
 }
